@@ -9,18 +9,24 @@ import Sds.Driver.Bv
 import Sds.Driver.Sparse
 import Sds.Driver.RL
 import Sds.Driver.WM
+import Sds.Driver.Ser
 
 namespace Sds.Driver
 open Sds Outcome
 
 /-- token-wise comparison with wildcards in the expected string: `*` matches any single token *or*, as the last
 token, the whole rest; `abc*` matches any token with that prefix -/
-def matchToks : List String → List String → Bool
-  | [], [] => true
-  | ["*"], _ => true
-  | e :: es, a :: as =>
-    (e == a || e == "*" || (e.endsWith "*" && a.startsWith (e.dropEnd 1).toString)) && matchToks es as
-  | _, _ => false
+def matchToksF : Nat → List String → List String → Bool
+  | 0, _, _ => false
+  | _, [], [] => true
+  | _, ["*"], _ => true
+  | fuel + 1, "**" :: es, as => (List.range (as.length + 1)).any fun k => matchToksF fuel es (as.drop k)
+  | fuel + 1, e :: es, a :: as =>
+    (e == a || e == "*" || (e.endsWith "*" && a.startsWith (e.dropEnd 1).toString)) && matchToksF fuel es as
+  | _, _, _ => false
+
+/-- `*` = one token (or the whole rest when last), `abc*` = token prefix, `**` = any number of tokens -/
+def matchToks (e a : List String) : Bool := matchToksF (e.length + a.length + 2) e a
 
 def agrees (expected actual : String) : Bool :=
   matchToks ((expected.splitOn " ").filter (· ≠ "")) ((actual.splitOn " ").filter (· ≠ ""))
@@ -34,6 +40,12 @@ def evalRecipe (st : DState) (toks : List String) (impl : String) : Eval :=
   | "sp" :: name :: rest => evalSparse st name rest impl
   | "rl" :: name :: rest => evalRl st name rest impl
   | "wm" :: name :: rest => evalWm st name rest impl
+  | "ser" :: rest => evalSer st rest
+  | "wr" :: rest => evalWriter st rest
+  | "map" :: rest => evalMap st rest
+  | "mmap" :: rest => evalMmap st rest
+  | "tmp" :: rest => evalTmp st rest
+  | ["drop", _] => { st := st, model := "ok", spec := some "ok" }
   | _ => { st := st, model := "driver:unknown-op" }
 
 structure Stats where
